@@ -51,6 +51,10 @@ CLAIMED = {
    "Seeded search over interleavings of producers and the consumer of the real PriorityQueue under the simulator's scheduler (random, PCT, run-to-block, starvation policies), with exactly-once, per-transaction FIFO and porcupine linearizability oracles against a sequential priority-queue specification, plus stall detection for lost wake-ups. Sampling, not enumeration: a clean batch is evidence, not proof.",
    "Trusted: Go toolchain and testing/synctest; the instrumenter and simrt/simsync (mutex/cond simulated, interleavings at synchronisation operations); porcupine v1.3.0.",
    "deterministic simulation: seeded scheduler over real queue code + porcupine linearizability check", "6 (H1), 7 (C17)"),
+ "C34": ("exploration",
+   "Seeded search over interleavings of the real server ticker, the real client expiry task, 1-4 goroutines sharing the client side batching and 0-3 direct server callers, with the simulated clock started at any millisecond, advanced by 1 ms - 30 s between calls and jumped by up to +-1 h. Oracles: all timestamps ever returned are pairwise distinct (as packed values) and each caller's sequence is strictly increasing under the language's comparison.",
+   "Trusted: Go toolchain and testing/synctest (fake clock); simsync; one batching client per run, other clients modelled as direct server callers; the client reaches the server through a stub IDbms (the wire protocol is C40's subject).",
+   "deterministic simulation: seeded scheduler + simulated clock with jumps over the real timestamp code", "6 (H5), 7 (C34)"),
  "C18": ("exploration",
    "Seeded search over interleavings of 2-6 concurrent allocators of the real Stor.Alloc/extend at every atomic operation and the extend lock, with tape-chosen chunk sizes 64-4096 so that chunk boundaries are crossed constantly. Oracles after every allocation and at the end: len==cap==n, ranges pairwise disjoint, no chunk straddle, within Size(), Data(off) aliases the slice, and a unique byte pattern per allocation still intact (memory-level non-overlap). The 'too many retries' panic is the permitted loud failure.",
    "Trusted: Go toolchain and testing/synctest; simatomic/simsync scheduling points (sequentially consistent granularity); heap store instead of mmap.",
